@@ -232,6 +232,9 @@ Section OverlapProofs.
   (* ---- remove_small = filter ---- *)
   Definition keep (mn : Q) (k : nat) : bool := negb (Qle_bool (rad k) mn).
 
+  Lemma skipn_S_app (a : nat) pre suf : skipn (S (length pre)) (pre ++ a :: suf) = suf.
+  Proof. induction pre as [|b pre IH]; [reflexivity|exact IH]. Qed.
+
   Lemma rs_loop_spec mn : forall pre suf,
     rs_loop rad mn (rev (seq 0 (length pre))) (pre ++ suf) = filter (keep mn) pre ++ suf.
   Proof.
@@ -243,10 +246,9 @@ Section OverlapProofs.
     rewrite Hn. rewrite filter_app. simpl. unfold keep at 2.
     destruct (Qle_bool (rad a) mn); simpl.
     - rewrite firstn_app, firstn_all, Nat.sub_diag. simpl. rewrite app_nil_r.
-      replace (skipn (S (length pre)) (pre ++ a :: suf)) with suf.
-      + rewrite app_nil_r. apply IH.
-      + change (S (length pre)) with (1 + length pre)%nat. rewrite Nat.add_comm.
-        rewrite <- skipn_skipn. rewrite skipn_app, skipn_all, Nat.sub_diag. reflexivity.
+      replace (match pre ++ a :: suf with [] => [] | _ :: l => skipn (length pre) l end)
+        with suf by (symmetry; apply (skipn_S_app a pre suf)).
+      rewrite app_nil_r. apply IH.
     - rewrite IH. rewrite <- app_assoc. reflexivity.
   Qed.
 
